@@ -175,6 +175,9 @@ func runText(s *Session) string {
 				e.violate("C20", "json-unmarshal-own-output", fmt.Sprintf("%s does not parse back from its own JSON: %v (%.300s)", k.name, err, buf))
 			} else if !bytes.Equal(back, js) {
 				e.violate("C20", "json-roundtrip-differs", fmt.Sprintf("%s parsed back from its own JSON differs: %.200s vs %.200s", k.name, js, back))
+			} else if where := valueDiff(reflect.ValueOf(v).Elem(), reflect.ValueOf(got).Elem(), k.name); where != "" {
+				// the text agrees with itself; the value it stands for must be the one that was printed
+				e.violate("C20", "json-roundtrip-differs", fmt.Sprintf("%s parsed back from its own JSON is another value: %s differs (the JSON prints the same again)", k.name, where))
 			}
 			e.inc("text.roundtrip")
 			return
@@ -217,6 +220,73 @@ func informational(into any, control, js []byte) (same bool) {
 		}
 	})
 	return
+}
+
+var tEncoderTo = reflect.TypeOf((*types.EncoderTo)(nil)).Elem()
+
+// valueDiff walks two values of one type in parallel and names the first place
+// where they differ. Values with a binary encoding are compared by it (nil and
+// empty lists, and the sub-second part of times, are not distinguished there).
+func valueDiff(a, b reflect.Value, path string) string {
+	if a.Type() == tTimeT {
+		if a.Interface().(time.Time).Unix() != b.Interface().(time.Time).Unix() {
+			return path
+		}
+		return ""
+	}
+	if a.CanInterface() && a.Type().Implements(tEncoderTo) && !(a.Kind() == reflect.Ptr && (a.IsNil() || b.IsNil())) && !(a.Kind() == reflect.Interface) {
+		var ea, eb []byte
+		if guardPanic(func() { ea, eb = encObj(a.Interface().(types.EncoderTo)), encObj(b.Interface().(types.EncoderTo)) }) == "" {
+			if !bytes.Equal(ea, eb) {
+				return path
+			}
+			return ""
+		}
+	}
+	switch a.Kind() {
+	case reflect.Struct:
+		for i := 0; i < a.NumField(); i++ {
+			if a.Type().Field(i).IsExported() {
+				if d := valueDiff(a.Field(i), b.Field(i), path+"."+a.Type().Field(i).Name); d != "" {
+					return d
+				}
+			}
+		}
+	case reflect.Slice, reflect.Array:
+		if a.Len() != b.Len() {
+			return path + " (length)"
+		}
+		for i := 0; i < a.Len(); i++ {
+			if d := valueDiff(a.Index(i), b.Index(i), fmt.Sprintf("%s[%d]", path, i)); d != "" {
+				return d
+			}
+		}
+	case reflect.Ptr, reflect.Interface:
+		if a.IsNil() != b.IsNil() {
+			return path + " (nil)"
+		}
+		if !a.IsNil() {
+			if a.Elem().Type() != b.Elem().Type() {
+				return path + " (kind)"
+			}
+			return valueDiff(a.Elem(), b.Elem(), path)
+		}
+	case reflect.Map:
+		// (none of the published types has one)
+	default:
+		if a.CanInterface() && !reflect.DeepEqual(a.Interface(), b.Interface()) {
+			return path
+		}
+	}
+	return ""
+}
+
+func encObj(o types.EncoderTo) []byte {
+	var buf bytes.Buffer
+	e := types.NewEncoder(&buf)
+	o.EncodeTo(e)
+	e.Flush()
+	return buf.Bytes()
 }
 
 var tTimeT = reflect.TypeOf(time.Time{})
